@@ -2,7 +2,8 @@
 // ONE block step of the block-based Myers algorithm (`advance_block`, the real function) against the DP column recurrence,
 // complete for the word width: for every vertical-delta encoding (Pv & Mv == 0), every match mask, every incoming horizontal
 // delta hin in {-1, 0, 1} and every position of the bound bit, the new (Pv, Mv) decode to exactly the recurrence column of the
-// block, the returned hout is the horizontal delta at the bound row, and dist moves by hout.
+// block, the returned hout (in {-1, 0, 1}) is the horizontal delta at the bound row, and dist moves by hout (wrapping addition of the
+// sign-extended delta, for EVERY old dist).
 #[cfg(kani)]
 mod verif_harness_long {
     use super::*;
@@ -20,7 +21,6 @@ mod verif_harness_long {
                 let b: usize = kani::any();
                 kani::assume(b < $W);
                 let dist0: usize = kani::any();
-                kani::assume(dist0 >= 1000 && dist0 <= 2000);
                 // old column of the block relative to its top cell: o[0] = 0, o[i] = o[i-1] + pv_bit(i-1) - mv_bit(i-1)
                 let mut o = [0i32; $W + 1];
                 let mut i = 1;
@@ -56,7 +56,8 @@ mod verif_harness_long {
                 while i <= $W { assert!(n[i] == e[i]); i += 1; }
                 assert!(st.pv & st.mv == 0);
                 assert!(hout as i32 == e[b + 1] - o[b + 1]);
-                assert!(st.dist as i64 == dist0 as i64 + hout as i64);
+                assert!(hout >= -1 && hout <= 1);
+                assert!(st.dist == dist0.wrapping_add(hout as usize));
             }
         };
     }
